@@ -18,7 +18,9 @@ def _lst(s):
 def _kvs(s):
     if s in ("_", "N"):
         return None if s == "N" else {}
-    return {_unhex(e.split(":", 1)[0]): e.split(":", 1)[1] for e in s.split(",")}
+    def key(k):
+        return "(non-string) " + _unhex(k[1:]) if k.startswith("!") else _unhex(k)
+    return {key(e.split(":", 1)[0]): e.split(":", 1)[1] for e in s.split(",")}
 
 
 def decode(p):
@@ -33,26 +35,61 @@ def decode(p):
         events = []
         if f["e"] != "_":
             for e in f["e"].split("|"):
-                n, k, st = e.split(";")
-                events.append({"name": _unhex(n), "kind": ".".join(_lst(k)), "state": _kvs(st)})
+                p = e.split(";")
+                n, k, st = p[0], p[1], p[2]
+                ev = {"name": _unhex(n), "kind": ".".join(_lst(k)), "state": _kvs(st)}
+                if len(p) == 5:
+                    ev["own scope"], ev["added by (event.rule)"] = (None if p[3] == "-" else _kvs(p[3])), p[4]
+                events.append(ev)
         if len(rules) > 6:
             rules = rules[:6] + ["… %d rules in all" % len(rules)]
-        return {"workers": f["w"], "mode": f["m"], "rules": rules, "scope": _kvs(f["s"]), "events": events[:8],
+        extra = {k: f[k] for k in ("l", "z", "f", "g") if k in f}
+        return {"workers": f["w"], "mode": f["m"], **({"level/schedule/failOnFirstError/failing rules": extra} if extra else {}), "rules": rules, "scope": _kvs(f["s"]), "events": events[:8],
                 "values": "Z/A nil, H<class>i<n> hashable, D<class>i<n> list/map, X<n> regex (tables in go/cmd/harness/c01.go)"}
     except Exception:
         return p
+
+
+STRATA = ["kind", "state", "scope", "suppression", "dedupe", "spill", "cachehit", "ruleafter", "failstop", "fires", "child"]
+
+
+def post(ctx, cases, gores, model):
+    """per-stratum counters: in how many cases did this clause decide something (model's view)"""
+    counts = {k: 0 for k in STRATA}
+    for i, (_, attrs) in model.items():
+        for k in attrs.get("st", "").split(","):
+            if k in counts:
+                counts[k] += 1
+    ctx.coverage["strata"] = counts
+    ctx.coverage["strata_meaning"] = (
+        "cases in which: a kind pattern matched / a state pattern rejected a kind-matching rule / the scope rejected a "
+        "matching rule / a triggering rule was suppressed / two patterns of one rule matched / more than 63 state rules "
+        "matched the kind (several leaves) / the trigger cache was hit / a rule was added after an event / a failing action "
+        "cut the execution short / at least one rule ran / an event was added by a sink")
+    empty = [k for k, v in counts.items() if v == 0]
+    if empty:
+        raise checklib.CheckError("C01: no generated case exercises the clause(s) " + ", ".join(empty))
+    stalls = ctx.coverage.get("input_distribution", {}).get("stalled-attempt-repeated", 0)
+    if stalls:
+        ctx.notes.append(f"{stalls} processor run(s) stalled for more than 4 s and were repeated once with a fresh processor "
+                         "(only a reproducible hang is reported as HANG)")
 
 
 SPEC = dict(
     lean_modules=["Ecal.Props.C01"],
     shards=16,
     rule=("case = rule set + cascade scope + history of events + worker count 1..4, run through a real Processor "
-          "(AddEventAndWait, or AddEvent for all and Finish) and a RuleIndex; compared per event: IsTriggering, the sorted "
-          "multiset of Match names, whether AddEvent returned a monitor, the sorted multiset of executed rule names. "
+          "(AddEventAndWait, or AddEvent for all and Finish) and a RuleIndex; a schedule may put Finish/AddRule/Start or Reset "
+          "between events; actions of chosen rules return an error under both values of failOnFirstError (distinct priorities then). "
+          "Compared per event: the sorted multiset of executed rule names, the SET of Match names and — only when some rule ran — "
+          "IsTriggering and whether AddEvent returned a monitor (the property leaves the pre-check free when nothing fires); per rule: "
+          "whether AddRule returned an error. "
           "ECAL-level cases (l=e, ~2 % of the quick tier): the same kind of rule set declared as sinks (kindmatch / scopematch / "
           "statematch incl. lists and maps / priority / suppresses) in a real interpreter runtime, events added with addEvent / "
           "addEventAndWait and a scope map with true and false entries at nested paths (or omitted); compared: the sorted executed "
-          "sink names per event (x.mark in the sink body). Regex state patterns exist only at the engine level (createRule copies values). "
+          "sink names per event (x.mark in the sink body); also non-string statematch / state / scope keys, numeric kindmatch and "
+          "scopematch items, `scopematch []`, raising sinks under both flag values, sinks that add events as children of the cascade "
+          "or with a scope map of their own. Regex state patterns exist only at the engine level (createRule copies values). "
           "Non-trivial = for at least one event of the case a kind pattern of some rule matches."),
     exhaustive=("every single rule over segments {a,b,*}, depth <=2, <=2 patterns, state keys {k,l} values {nil,1,'x',[1],{'a':1}} "
                 "x every event of depth <=2 over {a,b} x 9 states; rule pairs / triples over reduced universes with suppression, "
@@ -62,25 +99,39 @@ SPEC = dict(
         "values are equality classes (Go == for hashable values, reflect.DeepEqual for lists/maps), assigned by the harness",
         "fmt.Sprintf(\"%q\", kind) is injective in the kind (the model keys the trigger cache by the kind itself); tested with segments containing quotes and blanks",
     ],
-    assumptions=["rule actions do not add further events (cascades are the subject of C02/C10); the cascade scope is the root monitor's scope"],
+    assumptions=[
+        "which rules RUN is decided here; the order in which they run (ascending priority) and the bookkeeping of cascades are C10/C02's: "
+        "with failOnFirstError on and a failing action the executed set depends on that order, the generated cases then use distinct priorities",
+        "self-suppression: Spec.fires reads 'not named in the suppression list of ANY rule whose kind, state and scope are satisfied', the rule "
+        "itself included, as the code does (a rule naming itself never runs); the property text says 'another such rule'",
+        "values: Go equality on hashable values / reflect.DeepEqual on lists and maps is taken as an equivalence whose classes the harness "
+        "assigns; NaN (not equal to itself) is a fresh class per occurrence; +0/-0 are one class and -0 is replaced by +0 where a regex looks "
+        "at the value's text; a value for which reflect's Comparable() holds but hashing panics (array/struct holding a slice) is outside ECAL's value universe",
+        "theorems: events are processed one at a time (AddEvent = pre-check + ProcessEvent atomically); concurrency of workers is only exercised by the tie",
+    ],
     decode=decode,
+    post=post,
 )
 
 META = dict(
     technique="Lean 4 refinement theorems (index tree + bit masks + scope trie + trigger cache = reference matcher) and differential correspondence through the public engine API",
-    level_text=("Proof at full strength over the executable model of engine/rule.go, util.go, processor.go, for all rule lists, events, "
-                "histories: the index (kind tree with spilling of full state leaves + BitVec-64 key matchers incl. deep values, regex loop, "
-                "early exit, collection loop) returns a rule once per matching kind pattern iff its state pattern admits the event "
-                "(match_eq_spec; leaf level: bitmask_faithful — invariant holds for the empty leaf, is kept by addRule below 63 rules, "
-                "implies match = filter of admitted rules in rule order, no hang/panic); ProcessEvent executes a duplicate-free sequence "
-                "whose name set is exactly Spec.fires (processEvent_exact); IsTriggering over-approximates Match and depends on the kind "
-                "only, hence the cache is sound after every history and a firing event is never skipped (fired_event_not_skipped); the "
-                "scope trie answers with the flag of the longest defined prefix. Hypotheses: Rule.WF (kind patterns non-empty as produced by "
-                "strings.Split, state keys distinct as in a Go map). Model tied to the real Processor / RuleIndex by exhaustive small "
-                "universes and random large rule sets (up to 200 state rules per kind), workers 1..4; the driver also cross-checks the "
-                "model against the executable Spec on every case."),
+    level_text=("Proof over the executable model of engine/rule.go, util.go, processor.go, for all rule lists, events and histories — a history "
+                "being any interleaving of AddEvent (each with the scope of its cascade), AddRule and Reset: the index (kind tree with "
+                "spilling of full state leaves + BitVec-64 key matchers incl. deep values, regex loop, early exit, collection loop; result "
+                "independent of Go's map iteration order) returns a rule once per matching kind pattern iff its state pattern admits the event "
+                "(match_eq_spec, bitmask_faithful, stateMatch_perm); ProcessEvent determines a duplicate-free list whose name set is exactly "
+                "Spec.fires and calls the actions of all of it when failOnFirstError is off or no action fails, else of the prefix up to and "
+                "including the first failing rule (processEvent_runs; the flag is ON in every ECAL runtime, interpreter/provider.go); "
+                "IsTriggering over-approximates Match and depends on the kind only, the cache is dropped by AddRule/Reset, hence a firing "
+                "event is never skipped after any history (cache_sound_ops, fired_event_not_skipped_ops); the scope trie answers with the flag "
+                "of the longest defined prefix (processEvent_exact_scope). Spec.fires ranges over the rules AddRule accepted "
+                "(indexed_characterised: first rule of each name, unless a rule of that name was refused before). Hypotheses: Rule.WF (kind "
+                "patterns non-empty as produced by strings.Split, state keys distinct as in a Go map). NOT modelled in Lean, only tested: "
+                "sink attributes -> Rule (rt_sink.go createRule) and addEvent's scope map (func_provider.go); constants 63, '*', '.' are typed "
+                "into the model, not extracted."),
     level_note=("Trusted: Lean kernel + propext/Classical.choice/Quot.sound; the correspondence harness; Go's regexp (truth table); "
-                "value equality classes computed by the harness."),
+                "value equality classes computed by the harness. Readings: a self-suppressing rule never runs (spec follows the code, "
+                "property text says 'another'); known findings statematch-nonstring-key and addrule-refused-name-registered (see known_findings.txt)."),
 )
 
 
